@@ -1504,3 +1504,184 @@ func checkC08PartialClash(c *Ctx, n int) {
 		})
 	}
 }
+
+// checkC02DigitFlag: the declaration has a flag whose short name is a DIGIT (`-5`, a compression level) and a signed
+// numeric option.  The negative number `-5` given to that option is its argument in every spelling — also as a
+// separate token, where it spells the flag: a negative number given to a signed numeric option is documented to bind.
+func checkC02DigitFlag(c *Ctx, n int) {
+	r := c.Rng
+	for i := 0; i < n; i++ {
+		ty := []string{"int", "i8", "f64", "Lint"}[r.Intn(4)]
+		root := &StructDesc{Fields: []FieldDesc{
+			{Name: "Five", Exported: true, Kind: "v", Ty: "bool", Tag: `short:"5"`},
+			{Name: "V", Exported: true, Kind: "v", Ty: "bool", Tag: `short:"v"`},
+			{Name: "Num", Exported: true, Kind: "v", Ty: ty, Tag: `short:"n" long:"num"`}}}
+		holder := root
+		pre := []string{}
+		if r.Intn(3) == 0 {
+			holder = &StructDesc{Fields: []FieldDesc{
+				{Name: "Five", Exported: true, Kind: "v", Ty: "bool", Tag: `short:"5"`},
+				{Name: "Run", Exported: true, Kind: "s", Tag: `command:"run"`, Sub: &StructDesc{Fields: root.Fields[1:]}}}}
+			pre = []string{"run"}
+		}
+		val := []string{"-5", "-5", "-7", "-55"}[r.Intn(4)]
+		forms := [][]string{{"-n" + val}, {"-n=" + val}, {"-n", val}, {"--num=" + val}, {"--num", val}, {"-vn", val}}
+		labels := []string{"-xV", "-x=V", "-x V", "--name=V", "--name V", "-ax V"}
+		var cases []*Case
+		for j, f := range forms {
+			cc := &Case{Name: "app", NsDelim: ".", EnvNsDelim: "_"}
+			cc.Build = []BuildOp{{Kind: "addgroup", Target: 1, Short: "Application Options", Struct: holder}}
+			argv := append(append([]string{}, pre...), f...)
+			if j == 5 {
+				argv = append(append([]string{}, pre...), f...)
+			}
+			cc.Ops = []Op{{Kind: "parse", Args: argv}}
+			cc.Description = fmt.Sprintf("digit flag -5 declared, spelling %s: %q", labels[j], argv)
+			cases = append(cases, cc)
+		}
+		var results []*CaseResult
+		c.RunCases(cases, func(cr *CaseResult) { results = append(results, cr) })
+		c.Class(fmt.Sprintf("c02/digit-flag: type=%s value=%s in-command=%v", ty, val, len(pre) > 0))
+		for j, cr := range results {
+			if cr.Real == nil || cr.Real.dead {
+				continue
+			}
+			var obs parseObs
+			for _, o := range parseBlocks(cr) {
+				obs = o
+			}
+			held, five := "?", "?"
+			if fr, ok := cr.Real.fields["Num"]; ok {
+				held = fmt.Sprint(fr.val.Interface())
+			}
+			if fr, ok := cr.Real.fields["Five"]; ok {
+				five = fmt.Sprint(fr.val.Interface())
+			}
+			wantHeld := val
+			if ty == "Lint" {
+				wantHeld = "[" + val + "]"
+			}
+			got := fmt.Sprintf("%s %s type %d %q Num=%s Five=%s", obs.panic, obs.errKind, obs.errType, obs.errMsg, held, five)
+			want := fmt.Sprintf(" ok type 0 \"\" Num=%s Five=false", wantHeld)
+			in := map[string]interface{}{"case": cr.Case.Description, "spelling": labels[j]}
+			if got != want {
+				in["case_file"] = c.saveCase(cr)
+			}
+			c.Check("a-negative-number-is-the-argument-of-a-signed-numeric-option-in-every-spelling", got == want, "C02:digit-flag:"+labels[j], in, got, want)
+		}
+	}
+}
+
+// checkC10OuterWord: a command has been entered; a later plain word spells a command of an OUTER level (a sibling of
+// the entered command, the entered command itself).  It is a word like any other: under PassAfterNonOption it ends
+// option recognition (everything behind it goes to the positional fields verbatim), and where the entered command has
+// optional subcommands and no free field it is a remaining argument — it never selects anything.
+func checkC10OuterWord(c *Ctx, n int) {
+	r := c.Rng
+	for i := 0; i < n; i++ {
+		run := &StructDesc{Fields: []FieldDesc{
+			{Name: "Verbose", Exported: true, Kind: "v", Ty: "bool", Tag: `short:"v" long:"verbose"`},
+			{Name: "Args", Exported: true, Kind: "s", Tag: `positional-args:"yes"`, Sub: &StructDesc{Fields: []FieldDesc{
+				{Name: "Words", Exported: true, Kind: "v", Ty: "Lstr"}}}}}}
+		test := &StructDesc{Fields: []FieldDesc{{Name: "T", Exported: true, Kind: "v", Ty: "bool", Tag: `long:"t"`}}}
+		root := &StructDesc{Fields: []FieldDesc{
+			{Name: "Run", Exported: true, Kind: "s", Sub: run, Tag: `command:"run" alias:"r"`},
+			{Name: "Test", Exported: true, Kind: "s", Sub: test, Tag: `command:"test"`}}}
+		cs := &Case{Name: "app", NsDelim: ".", EnvNsDelim: "_", Opts: flags.PassAfterNonOption}
+		cs.Build = []BuildOp{{Kind: "addgroup", Target: 1, Short: "Application Options", Struct: root}}
+		word := []string{"test", "run", "r", "other"}[r.Intn(4)]
+		flagsBefore := r.Intn(2) == 0
+		argv := []string{"run"}
+		if flagsBefore {
+			argv = append(argv, "-v")
+		}
+		tail := []string{word, "-v", "--verbose", "x"}
+		argv = append(argv, tail...)
+		cs.Ops = []Op{{Kind: "parse", Args: argv}}
+		cs.Description = describeOps(cs)
+		c.RunCases([]*Case{cs}, func(cr *CaseResult) {
+			c.classifyCase(cr)
+			if cr.Real == nil || cr.Real.dead {
+				return
+			}
+			c.Class(fmt.Sprintf("c10/outer-word: word=%s", word))
+			var obs parseObs
+			for _, o := range parseBlocks(cr) {
+				obs = o
+			}
+			words, verbose := "?", "?"
+			if fr, ok := cr.Real.fields["Words"]; ok {
+				words = fmt.Sprintf("%q", fr.val.Interface())
+			}
+			if fr, ok := cr.Real.fields["Verbose"]; ok {
+				verbose = fmt.Sprint(fr.val.Interface())
+			}
+			got := fmt.Sprintf("%s %s type %d Words=%s Verbose=%s remaining %q", obs.panic, obs.errKind, obs.errType, words, verbose, obs.ret)
+			want := fmt.Sprintf(" ok type 0 Words=%q Verbose=%v remaining []", tail, flagsBefore)
+			in := map[string]interface{}{"case": cs.Description, "argv": argv}
+			if got != want {
+				in["case_file"] = c.saveCase(cr)
+			}
+			c.Check("a-word-spelling-an-outer-command-is-a-word", got == want, "C10:outer-word", in, got, want)
+		})
+	}
+}
+
+// checkC11EmptyAttached: an option with an optional argument AND an optional-value is given an attached EMPTY
+// argument (`--level=`, `-l=`): the empty text is the argument — converted and checked like any other (ErrMarshal
+// for a number, "" for a string, ErrInvalidChoice where "" is no choice); the optional-value is for the bare option.
+func checkC11EmptyAttached(c *Ctx, n int) {
+	r := c.Rng
+	for i := 0; i < n; i++ {
+		kind := r.Intn(3)
+		ty, tag := "i8", `short:"l" long:"level" optional:"yes" optional-value:"3"`
+		switch kind {
+		case 1:
+			ty, tag = "str", `short:"l" long:"level" optional:"yes" optional-value:"anonymous"`
+		case 2:
+			ty, tag = "str", `short:"l" long:"level" optional:"yes" optional-value:"fast" choice:"fast" choice:"slow"`
+		}
+		root := &StructDesc{Fields: []FieldDesc{
+			{Name: "V", Exported: true, Kind: "v", Ty: "bool", Tag: `short:"v"`},
+			{Name: "Level", Exported: true, Kind: "v", Ty: ty, Tag: tag}}}
+		cs := &Case{Name: "app", NsDelim: ".", EnvNsDelim: "_"}
+		cs.Build = []BuildOp{{Kind: "addgroup", Target: 1, Short: "Application Options", Struct: root}}
+		form := r.Intn(4)
+		argv := [][]string{{"--level="}, {"-l="}, {"--level"}, {"-v", "--level=", "w"}}[form]
+		cs.Ops = []Op{{Kind: "parse", Args: argv}}
+		cs.Description = describeOps(cs)
+		c.RunCases([]*Case{cs}, func(cr *CaseResult) {
+			c.classifyCase(cr)
+			if cr.Real == nil || cr.Real.dead {
+				return
+			}
+			c.Class(fmt.Sprintf("c11/empty-attached: kind=%d form=%d", kind, form))
+			var obs parseObs
+			for _, o := range parseBlocks(cr) {
+				obs = o
+			}
+			held := "?"
+			if fr, ok := cr.Real.fields["Level"]; ok {
+				held = fmt.Sprint(fr.val.Interface())
+			}
+			got := fmt.Sprintf("%s %s type %d Level=%q", obs.panic, obs.errKind, obs.errType, held)
+			var want string
+			bare := form == 2
+			switch {
+			case bare:
+				want = fmt.Sprintf(" ok type 0 Level=%q", map[int]string{0: "3", 1: "anonymous", 2: "fast"}[kind])
+			case kind == 0:
+				want = fmt.Sprintf(" flags type %d Level=\"0\"", int(flags.ErrMarshal))
+			case kind == 1:
+				want = " ok type 0 Level=\"\""
+			default:
+				want = fmt.Sprintf(" flags type %d Level=\"\"", int(flags.ErrInvalidChoice))
+			}
+			in := map[string]interface{}{"case": cs.Description, "argv": argv, "declaration": tag}
+			if got != want {
+				in["case_file"] = c.saveCase(cr)
+			}
+			c.Check("an-attached-empty-argument-is-converted-like-any-other", got == want, "C11:empty-attached", in, got, want)
+		})
+	}
+}
